@@ -169,6 +169,8 @@ func (node *LookupJoin) Typecheck(ctx context.Context, env physical.Environment,
 		Schema: physical.Schema{
 			Fields:    append(left.Schema.Fields[:len(left.Schema.Fields):len(left.Schema.Fields)], right.Schema.Fields[:len(right.Schema.Fields):len(right.Schema.Fields)]...),
 			TimeField: left.Schema.TimeField,
+			// A lookup join record is a retraction iff exactly one of the two records it is built from is one.
+			NoRetractions: left.Schema.NoRetractions && right.Schema.NoRetractions,
 		},
 		NodeType: physical.NodeTypeLookupJoin,
 		LookupJoin: &physical.LookupJoin{
